@@ -48,6 +48,7 @@ def run(ctx):
     if ctx.driver:
         scrubtie.run_correspondence(ctx, 2000 if ctx.quick else 30000)
     stmts = pool.statements(ctx, n_gen=300 if ctx.quick else 4000)
+    stmts = pool.scripts() + stmts
     more = []
     for st in stmts:
         if st["origin"] == "gen-expr":
